@@ -493,7 +493,7 @@ func (ev *Evaluator) callTransform(f *Func, argv []Value) (Value, *Err) {
 	if !isMap(arg) && !isArray(arg) {
 		return Undef, argType(1)
 	}
-	obj := DeepCopy(arg)
+	obj := CopyContainers(arg)
 	inside := map[uintptr]bool{}
 	collectMaps(obj, inside)
 	items, err := ev.eval(f.T.Pattern, obj, f.Env)
